@@ -127,6 +127,8 @@ type jEvent struct {
 	// t == "setseq": position the UR-SEQN counter of URR `urr` of session `seid` at `v` (C11: counters far from 0)
 	URR uint32 `json:"urr,omitempty"`
 	V   uint32 `json:"v,omitempty"`
+	// t == "report": every write on the PFCP socket fails while this report is served (monitor-only phases)
+	WFail bool `json:"wfail,omitempty"`
 }
 
 type jCase struct {
@@ -1061,12 +1063,20 @@ func runPfcpCase(f *fixture, c jCase) []oEvent {
 					sr.Reports = append(sr.Reports, toUSAReport(*it.Usa))
 				}
 			}
+			if ev.WFail {
+				srv.VerifFailWrites(true)
+			}
 			srv.NotifySessReport(sr)
 			for j := 0; j < 20000; j++ {
 				if _, n, _ := srv.VerifChanLens(); n == 0 {
 					break
 				}
 				time.Sleep(50 * time.Microsecond)
+			}
+			if ev.WFail {
+				// the loop has taken the report; give it time to run into the failing write before writes work again
+				time.Sleep(30 * time.Millisecond)
+				srv.VerifFailWrites(false)
 			}
 		case "setseq":
 			// the loop is idle (the previous barrier went through it): the counter is positioned directly
